@@ -61,13 +61,14 @@ def run(tier, seed):
     cases = make_cases(tier, rng)
     obs, crashes = vlib.run_cases(binary, "TestChecksumCases", cases, "c13", shards=min(4, vlib.NCPU))
     by = {c["name"]: c for c in cases}
+    nhung = len(vlib.hung_cases(obs))
     for name in vlib.hung_cases(obs):
         rep.violation("c13:hang", "case %s never finished" % json.dumps(by[name]), {"case": by[name]})
         del obs[name]
     for name, out in crashes.items():
         rep.violation("c13:crash", "host died", {"case": by[name], "output": out})
     obs_list = [obs[c["name"]] for c in cases if c["name"] in obs]
-    if len(obs_list) + len(crashes) < len(cases):
+    if len(obs_list) + len(crashes) + nhung < len(cases):
         raise vlib.Inconclusive("missing observations")
     r2, dev = vlib.judge_observations("TraceChecksum", "trace_checksum.cfg", obs_list, "c13")
     for name in dev:
